@@ -457,14 +457,14 @@ theorem pairAll_marksOf (checkTime : Bool) (htime : TimeOK tbl) :
           have hfound := ongoingOf_mem tbl hS hm
           have herase := ongoingOf_erase tbl hS hm
           refine ⟨_, rfl, ?_, ?_, ?_⟩ <;>
-            simp [pairStep, markOf, ofind, hong, hfound, pendingOf, hnr, herase]
+            simp [pairStep, pairCore, markOf, ofind, hong, hfound, pendingOf, hnr, herase]
         | false =>
           have ht : t = true := by cases t <;> simp_all
           subst ht
           have hfound := ongoingOf_mem tbl hS hm
           have herase := ongoingOf_erase tbl hS hm
           refine ⟨_, rfl, ?_, ?_, ?_⟩ <;>
-            simp [pairStep, markOf, ofind, hong, hfound, pendingOf, hnr, herase]
+            simp [pairStep, pairCore, markOf, ofind, hong, hfound, pendingOf, hnr, herase]
       | none =>
         have hfree := (smallestFree_spec (S.map (·.2.2))).1
         have hn1 := ongoingOf_none tbl hfree true
@@ -473,10 +473,10 @@ theorem pairAll_marksOf (checkTime : Bool) (htime : TimeOK tbl) :
         cases isStart with
         | true =>
           refine ⟨_, rfl, ?_, ?_, ?_⟩ <;>
-            simp [pairStep, markOf, ofind, hong, hn1, hn2, ← happ, pendingOf]
+            simp [pairStep, pairCore, markOf, ofind, hong, hn1, hn2, ← happ, pendingOf]
         | false =>
           refine ⟨_, rfl, ?_, ?_, ?_⟩ <;>
-            simp [pairStep, markOf, ofind, hong, hn1, hn2, ← happ, pendingOf]
+            simp [pairStep, pairCore, markOf, ofind, hong, hn1, hn2, ← happ, pendingOf]
     obtain ⟨st1, hst1, hong1, hlost1, hdone1⟩ := hstep
     rw [hst1]
     obtain ⟨ihd, ihl, iho⟩ := ih (stepS S e).1 _ st1 hS' hong1 hrest
